@@ -2,6 +2,7 @@
 from __future__ import annotations
 
 import ast
+import math
 from typing import Dict, List, Optional, Set, Tuple
 
 from .. import algebra as A
@@ -33,13 +34,18 @@ DECIDED = [
     'R3 the stored zero is (total elevation - look angle) and an un-canted shot without hold-over fires at '
     'look + zero = the elevation found',
     'R4 by evaluation of the statements before the loop and of one pass of the loop body (_integrate replaced'
-    ' by a recorder handing back a row whose height is a symbol in metres, the distance given in yards): the '
-    'shot given is integrated to cos(look) d in feet, and after the pass the error is |row height in feet - '
-    'sin(look) d| on every path',
+    ' by a recorder handing back a row whose height and distance are symbols in metres, the distance given in '
+    'yards): the shot given is integrated to cos(look) d in feet, and after the pass the error - read at 7 look '
+    'angles x 3 overshoots of the measured row beyond the aim point\'s distance - is zero exactly when the row lies '
+    'on the sight line at the row\'s own distance and non-zero off it',
+    'R5 first-order contraction: under the geometric sensitivity of the height at a fixed distance to the '
+    'elevation (x / cos^2 per radian) one pass multiplies the error by a factor of magnitude below 1 at every '
+    'sampled look angle from -45 to 75 degrees (a step sized for a level sight line is refuted: factor -tan^2)',
 ]
 NOT_DECIDED = [
-    'that the fixed-point iteration converges within the iteration cap for every reachable target; the '
-    'numerical closeness of the fired trajectory to the sight line',
+    'that the iteration converges within the iteration cap for every reachable target (R5 decides only the '
+    'first-order contraction under a drag-free sensitivity model); the numerical closeness of the fired '
+    'trajectory to the sight line',
 ]
 
 
@@ -49,6 +55,7 @@ def run(prog: Program, rep, thorough: bool) -> None:
     rep.rule('C02.R2', 'failed attempt leaves the stored zero untouched', 2)
     rep.rule('C02.R3', 'stored zero round-trips to the elevation found; searched on the shot itself', 2)
     rep.rule('C02.R4', 'aim-point geometry', 3)
+    rep.rule('C02.R5', 'the correction contracts the error (first order, geometric sensitivity)', 1)
     tc = prog.module(C.M_TC)
     za = prog.func(C.M_TC, 'TrajectoryCalc.zero_angle')
     rep.saw(za)
@@ -483,8 +490,10 @@ def run(prog: Program, rep, thorough: bool) -> None:
     L = A.sym('L')
     want_x, want_y = A.fn('cos', L) * D, A.fn('sin', L) * D
     H = C.read_raw_in(ev2, prog, 'Distance', 'Hraw', 'Foot')
-    want_err = A.fn('abs', H - want_y)
-    p_aim, p_int, p_err = [], [], []
+    X = C.read_raw_in(ev2, prog, 'Distance', 'Xraw', 'Foot')
+    p_aim, p_int, p_err, p_gain = [], [], [], []
+    n_gain = 0
+    self_oid = selfv.oid
     n_pass = 0
     for s0 in starts:
         measured.clear()
@@ -506,9 +515,15 @@ def run(prog: Program, rep, thorough: bool) -> None:
                 continue
             n_pass += 1
             e_ = lf.state.env.get(err)
-            vals = [x for _cp, x in cond_leaves(e_)] if e_ is not None else []
-            if not vals or not all(isinstance(x, Scalar) and x.rf.equals(want_err) for x in vals):
-                p_err.append(f'after one pass `{err}` is {e_!r}, not |height of the measured row in feet - sin(look) d| = {want_err!r}')
+            why = _error_by_sampling(e_, H, X, err)
+            if why:
+                p_err.append(why)
+            be_ = lf.state.heap.get(self_oid, {}).get('barrel_elevation')
+            g = _gain_by_sampling(be_, H, X)
+            if g is not None:
+                n_gain += 1
+                if g:
+                    p_gain.append(g)
     if p_aim:
         rep.fail('C02.R4', tc.path, za.node.lineno, za.qualname, 'aim-point', sorted(set(p_aim))[0])
     else:
@@ -518,10 +533,107 @@ def run(prog: Program, rep, thorough: bool) -> None:
     else:
         rep.ok('C02.R4', tc.where(loops[0]), 'the measurement integrates the shot given')
     if p_err:
-        rep.fail('C02.R4', tc.path, loops[0].lineno, za.qualname, 'error-def', 'the error is not |height of the measured row in feet - '
-                 'aim height|: ' + sorted(set(p_err))[0])
+        rep.fail('C02.R4', tc.path, loops[0].lineno, za.qualname, 'error-def', sorted(set(p_err))[0])
     else:
-        rep.ok('C02.R4', tc.where(loops[0]), f'error = |row height (ft) - sin(look) d| on {n_pass} paths of one pass')
+        rep.ok('C02.R4', tc.where(loops[0]), f'error = distance of the measured row from the sight line at the row\'s own '
+               f'down-range distance (zero exactly on the line, at 7 look angles x 3 overshoots) on {n_pass} paths of one pass')
+    if p_gain:
+        rep.fail('C02.R5', tc.path, loops[0].lineno, za.qualname, 'gain', sorted(set(p_gain))[0])
+    elif n_gain:
+        rep.ok('C02.R5', tc.where(loops[0]), f'the correction contracts the error to first order at every sampled look angle '
+               f'({n_gain} updating path(s))')
+    else:
+        rep.undecided('C02.R5', tc.where(loops[0]), 'gain of the correction', 'no path of one pass changes the elevation by an '
+                      'amount that depends on the measured height')
+
+
+LOOKS = (0.0, 0.3, -0.3, math.pi / 4, -math.pi / 4, 1.0, 1.3)
+OVERSHOOT = (0.0, 0.2, 0.45)          # feet beyond the aim point's distance (one integration step is 0.5 ft at most)
+
+
+def _env(look: float, d_yd: float, x_ft: float, h_ft: float, Hrf, Xrf) -> Dict[str, float]:
+    """Numeric point for the symbols of one evaluated pass: the row lies at (x_ft, h_ft) feet, the distance given is
+    d_yd yards (raw magnitudes are whatever the analysed unit tables make of that)."""
+    base = {'pi': math.pi, 'L': look, 'be': look + 0.002, 'cfg.cZeroFindingAccuracy': 1e-9, 'cfg.cMaxIterations': 20.0}
+    cH = Hrf.evalf(dict(base, Hraw=1.0))
+    cX = Xrf.evalf(dict(base, Xraw=1.0))
+    return dict(base, Draw=d_yd * 36.0, Hraw=h_ft / cH, Xraw=x_ft / cX)
+
+
+def _error_by_sampling(e_, Hrf, Xrf, name: str) -> Optional[str]:
+    """The error of one pass, read at numeric sample points (the normal form is evaluated, never the code): it must
+    vanish exactly when the measured row lies on the sight line - at the row's own distance, which is up to one step
+    beyond the aim point's - and be positive off the line."""
+    from .c16 import value_at
+    if e_ is None:
+        return f'after one pass `{name}` has no value'
+    for look in LOOKS:
+        for over in OVERSHOOT:
+            d_yd = 200.0
+            x = math.cos(look) * d_yd * 3.0 + over
+            on_line = math.tan(look) * x
+            for off in (0.0, 0.37, -0.21):
+                env = _env(look, d_yd, x, on_line + off, Hrf, Xrf)
+                v = value_at(e_, env)
+                if not isinstance(v, Scalar):
+                    return None if isinstance(v, Cond) else f'after one pass `{name}` is {v!r}'
+                try:
+                    val = v.rf.evalf(env)
+                except (KeyError, ZeroDivisionError, ValueError):
+                    return None
+                if off == 0.0 and abs(val) > 1e-9:
+                    at_aim = abs(on_line - math.sin(look) * d_yd * 3.0)
+                    hint = (' (it is the height above the aim point: the row is compared with the aim point\'s height although '
+                            'it lies beyond the aim point\'s distance)') if abs(abs(val) - at_aim) < 1e-9 else ''
+                    return (f'look angle {look:.3f} rad, measured row {over} ft beyond the aim point\'s distance and exactly on '
+                            f'the sight line: `{name}` = {v.rf!r} evaluates to {val:.6f} ft, not 0{hint}; the search then settles '
+                            f'{abs(val):.4f} ft off the sight line, far outside accuracy + one step x relative slope')
+                if off != 0.0 and abs(val) < 1e-12:
+                    return (f'look angle {look:.3f} rad, measured row {off} ft off the sight line: `{name}` = {v.rf!r} evaluates '
+                            f'to 0 - a miss is taken for a hit')
+    return None
+
+
+def _gain_by_sampling(be_, Hrf, Xrf) -> Optional[str]:
+    """First-order contraction of the search.  Geometric sensitivity (the model of this rule): at a fixed down-range
+    distance x the height of the trajectory changes by x / cos^2(elevation) per radian of elevation.  If one pass
+    replaces the elevation by  be - g * (height error),  the error after the pass is  (1 - g x / cos^2) * error.
+    None: this path does not update the elevation; '': contracts; text: does not."""
+    from .c16 import value_at
+    if be_ is None:
+        return None
+    worst = None
+    updated = False
+    for look in LOOKS:
+        d_yd = 200.0
+        x = math.cos(look) * d_yd * 3.0
+        on_line = math.tan(look) * x
+        vals = []
+        for off in (0.4, 0.8):
+            env = _env(look, d_yd, x, on_line + off, Hrf, Xrf)
+            v = value_at(be_, env)
+            if not isinstance(v, Scalar):
+                return None
+            try:
+                vals.append(v.rf.evalf(env) - env['be'])
+            except (KeyError, ZeroDivisionError, ValueError):
+                return None
+        if abs(vals[0]) < 1e-15 and abs(vals[1]) < 1e-15:
+            continue
+        updated = True
+        g = -(vals[1] - vals[0]) / 0.4                      # d(elevation) / d(height error), sign turned
+        rho = 1.0 - g * x / math.cos(look) ** 2
+        if abs(rho) >= 1.0 - 1e-9 and (worst is None or abs(rho) > abs(worst[1])):
+            worst = (look, rho, g, x)
+    if not updated:
+        return None
+    if worst:
+        look, rho, g, x = worst
+        return (f'at look angle {look:.3f} rad ({math.degrees(look):.0f} deg) one pass changes the elevation by {g:.3e} rad per foot '
+                f'of height error at {x:.1f} ft, while the height there changes by x / cos^2 = {x / math.cos(look) ** 2:.1f} ft per '
+                f'radian: the error is multiplied by {rho:+.3f} per pass, so the search does not converge for such a sight line '
+                f'although the target is within reach')
+    return ''
 
 
 TCF = 'py_ballisticcalc/trajectory_calc/_trajectory_calc.py'
@@ -529,13 +641,17 @@ IFF = 'py_ballisticcalc/interface.py'
 VARIANTS = [
     Variant('iteration-counter-on-the-instance', 'break', [(TCF, '        iterations_count = 0\n', ''), (TCF, 'iterations_count', 'self.iterations_count', 3)], 'C02.R1', 'seeded change C02/5: the budget is shared by all zeroings of one calculator'),
     Variant('final-raise-removed', 'break', [(TCF, '        if zero_finding_error > _cZeroFindingAccuracy:\n            # ZeroFindingError contains an instance of last barrel elevation; so caller can check how close zero is\n            raise ZeroFindingError(zero_finding_error, iterations_count, Angular.Radian(self.barrel_elevation))\n', '')], 'C02.R1', 'returns the last elevation although the accuracy was not met', 'pass'),
-    Variant('adjust-after-last-measurement', 'break', [(TCF, '            if zero_finding_error > _cZeroFindingAccuracy:\n                # Adjust barrel elevation to close height at zero distance\n                self.barrel_elevation -= (height - height_at_zero) / zero_distance\n            else:  # last barrel_elevation hit zero!\n                break\n', '            # Adjust barrel elevation to close height at zero distance\n            self.barrel_elevation -= (height - height_at_zero) / zero_distance\n')], 'C02.R1', 'the elevation returned was never measured'),
+    Variant('adjust-after-last-measurement', 'break', [(TCF, '            if zero_finding_error > _cZeroFindingAccuracy:\n                # Adjust barrel elevation to close height at zero distance\n                # (the height at a fixed distance changes by distance / cos^2 per radian of elevation)\n                self.barrel_elevation -= (height - height_at_zero) / (zero_distance * (1.0 + look_tangent * look_tangent))\n            else:  # last barrel_elevation hit zero!\n                break\n', '            # Adjust barrel elevation to close height at zero distance\n            self.barrel_elevation -= (height - height_at_zero) / (zero_distance * (1.0 + look_tangent * look_tangent))\n')], 'C02.R1', 'the elevation returned was never measured'),
     Variant('compare-double-accuracy', 'break', [(TCF, '        if zero_finding_error > _cZeroFindingAccuracy:\n            # ZeroFindingError', '        if zero_finding_error > _cZeroFindingAccuracy * 2:\n            # ZeroFindingError')], 'C02.R1'),
-    Variant('zero-angle-writes-weapon', 'break', [(TCF, '                self.barrel_elevation -= (height - height_at_zero) / zero_distance\n', '                self.barrel_elevation -= (height - height_at_zero) / zero_distance\n                shot_info.weapon.zero_elevation = Angular.Radian(self.barrel_elevation)\n')], 'C02.R2', '', 'pass'),
+    Variant('zero-angle-writes-weapon', 'break', [(TCF, '                self.barrel_elevation -= (height - height_at_zero) / (zero_distance * (1.0 + look_tangent * look_tangent))\n', '                self.barrel_elevation -= (height - height_at_zero) / (zero_distance * (1.0 + look_tangent * look_tangent))\n                shot_info.weapon.zero_elevation = Angular.Radian(self.barrel_elevation)\n')], 'C02.R2', '', 'pass'),
     Variant('stored-zero-includes-look', 'break', [(IFF, '            (total_elevation >> Angular.Radian) - (shot.look_angle >> Angular.Radian)\n', '            (total_elevation >> Angular.Radian)\n')], 'C02.R3', 'uphill shots fire at look + total'),
-    Variant('aim-height-uses-tan', 'break', [(TCF, 'height_at_zero = math.sin(self.look_angle) * distance_feet', 'height_at_zero = math.tan(self.look_angle) * distance_feet')], 'C02.R4', 'wrong aim point for inclined sight lines only'),
+    Variant('error-against-the-aim-point-height', 'break', [(TCF, 'height_at_zero = look_tangent * (t.distance >> Distance.Foot)', 'height_at_zero = math.sin(self.look_angle) * distance_feet')], 'C02.R4', 'the defect repaired by the first zero_angle fix: the terminal sample lies up to one step beyond the aim point but is compared with the aim point\'s height (1 inch off the sight line at 10 degrees)'),
+    Variant('error-uses-sine-of-look', 'break', [(TCF, 'look_tangent = math.tan(self.look_angle)', 'look_tangent = math.sin(self.look_angle)')], 'C02.R4', 'wrong sight line for inclined shots only'),
+    Variant('step-sized-for-a-level-sight-line', 'break', [(TCF, ' / (zero_distance * (1.0 + look_tangent * look_tangent))', ' / zero_distance')], 'C02.R5', 'the defect repaired by the second zero_angle fix: no convergence at look angles of 45 degrees and beyond'),
+    Variant('twin-gain-by-cosine-squared', 'twin', [(TCF, ' / (zero_distance * (1.0 + look_tangent * look_tangent))', ' * math.cos(self.look_angle) ** 2 / zero_distance')], None),
+    Variant('twin-perpendicular-distance', 'twin', [(TCF, 'zero_finding_error = math.fabs(height - height_at_zero)', 'zero_finding_error = math.fabs(height - height_at_zero) * math.cos(self.look_angle)')], None, 'a positive multiple of the vertical distance is still zero exactly on the line (the accuracy is then met a little earlier)'),
     Variant('zero-store-before-search', 'break', [(IFF, '        shot.weapon.zero_elevation = self.barrel_elevation_for_target(shot, zero_distance)\n        return shot.weapon.zero_elevation', '        shot.weapon.zero_elevation = Angular.Radian(0)\n        shot.weapon.zero_elevation = self.barrel_elevation_for_target(shot, zero_distance)\n        return shot.weapon.zero_elevation')], 'C02.R2', 'a failed attempt resets the stored zero'),
     Variant('return-on-cap-without-test', 'break', [(TCF, '        while zero_finding_error > _cZeroFindingAccuracy and iterations_count < _cMaxIterations:', '        while iterations_count < _cMaxIterations:'), (TCF, '        if zero_finding_error > _cZeroFindingAccuracy:\n            # ZeroFindingError', '        if iterations_count > _cMaxIterations:\n            # ZeroFindingError')], 'C02.R1'),
     Variant('twin-accuracy-local-renamed', 'twin', [(TCF, '_cZeroFindingAccuracy', '_acc', 5)], None),
-    Variant('twin-le-else-form', 'twin', [(TCF, '            if zero_finding_error > _cZeroFindingAccuracy:\n                # Adjust barrel elevation to close height at zero distance\n                self.barrel_elevation -= (height - height_at_zero) / zero_distance\n            else:  # last barrel_elevation hit zero!\n                break\n', '            if zero_finding_error <= _cZeroFindingAccuracy:\n                break\n            self.barrel_elevation -= (height - height_at_zero) / zero_distance\n')], None),
+    Variant('twin-le-else-form', 'twin', [(TCF, '            if zero_finding_error > _cZeroFindingAccuracy:\n                # Adjust barrel elevation to close height at zero distance\n                # (the height at a fixed distance changes by distance / cos^2 per radian of elevation)\n                self.barrel_elevation -= (height - height_at_zero) / (zero_distance * (1.0 + look_tangent * look_tangent))\n            else:  # last barrel_elevation hit zero!\n                break\n', '            if zero_finding_error <= _cZeroFindingAccuracy:\n                break\n            self.barrel_elevation -= (height - height_at_zero) / (zero_distance * (1.0 + look_tangent * look_tangent))\n')], None),
 ]
